@@ -48,6 +48,7 @@ func registry() map[string]*Rule {
 		{Name: "IDX5", Floor: 3, Run: ruleIDX5, Doc: "index creation writes the catalog after feeding a criteria-less scan into the new index; index drop drops entries before rewriting the catalog; collection drop bulk-deletes before deleting the catalog key"},
 		{Name: "ADP3", Floor: 10, Run: ruleADP3, Doc: "backend (bbolt/badger) APIs are called only inside the store adapter packages"},
 		{Name: "OPS3", Floor: 2, Run: ruleOPS3, Doc: "Neq is Not(Eq) and NotExists is Not(Exists), built on the builder's own arguments"},
+		{Name: "KEY5", Floor: 2, Run: ruleKEY5, Doc: "specialised on reverse = true, every Cursor.Seek target in a scan function ends in the 0xFF upper sentinel"},
 	}
 	m := map[string]*Rule{}
 	for _, r := range rules {
@@ -82,7 +83,7 @@ func propertyTable() map[string]*Property {
 		},
 		"C02": {
 			Technique:   tSSA + "SSA guard analysis of the planner (re-filter, And-only intersection, negation push-down closure), finite table extraction, index-maintenance dominance, key-template analysis",
-			Rules:       []string{"PLAN1", "PLAN2", "PLAN3", "PLAN6", "IDX1", "IDX2", "KEY1", "KEY2", "KEY3", "VIS1"},
+			Rules:       []string{"PLAN1", "PLAN2", "PLAN3", "PLAN6", "IDX1", "IDX2", "KEY1", "KEY2", "KEY3", "KEY5", "VIS1"},
 			Explanation: "Decides structural clauses of C02: index candidates are always re-checked against the full criteria (PLAN1); ranges of the two sides are intersected only under a conjunction and no range is produced for a disjunction or below a surviving negation (PLAN2, PLAN3); the negation push-down never returns an unvisited child (PLAN3); the two finite tables Not(op)->complement and op->range equal the mathematical ones row by row (PLAN6, decided completely); index entries follow every document write/delete, and old entries are located before a user updater may mutate the document (IDX1, IDX2); an index scan sees exactly its own entries and add/remove use one key layout (KEY1-KEY3); planning visitors cannot return a value their callers' unchecked assertions reject (VIS1).",
 			NotDecided:  "That a derived range contains every matching value for all values (nil bounds, Range.IsEmpty, inclusive ends in reverse scans), and that sort elision is taken only when the index order equals the requested order. Value-level.",
 			Assumptions: commonAssumptions,
@@ -124,7 +125,7 @@ func propertyTable() map[string]*Property {
 		},
 		"C08": {
 			Technique:   tSSA + "plan-pipeline type flow, sort-option normalisation dataflow, callback-loop error rules, comparator arithmetic check",
-			Rules:       []string{"PLAN4", "PLAN5", "ERR3", "CMP2", "CMP1"},
+			Rules:       []string{"PLAN4", "PLAN5", "ERR3", "CMP2", "CMP1", "KEY5"},
 			Explanation: "Decides structural clauses of C08: the sort node never follows the skip/limit node (PLAN4: the window is cut from the ordered sequence); sort directions are normalised to +-1 and Sort() defaults to a literal (PLAN5); a limit stops the emission behind a sort and the stop does not leak (ERR3); the comparator the sort uses has no wrap-around and the documented type ranking (CMP2, CMP1).",
 			NotDecided:  "That windows are exactly [n, n+m), tie handling, multi-key order, correctness of sort elision and of reverse index scans. Narrow claim, stated as such.",
 			Assumptions: commonAssumptions,
@@ -187,8 +188,8 @@ func propertyTable() map[string]*Property {
 		},
 		"C17": {
 			Technique:   tSSA + "key-template analysis of seek targets and scan bounds, error and callback-loop rules in the range index",
-			Rules:       []string{"KEY1", "KEY2", "KEY3", "ERR1", "ERR3"},
-			Explanation: "Decides structural clauses of C17: a range scan or full iteration is bounded by a prefix that covers exactly the index's own entries, add and remove use one layout (KEY1-KEY3); seek and item errors are propagated (ERR1); the scan stops when the consumer asks and the stop does not escape (ERR3).",
+			Rules:       []string{"KEY1", "KEY2", "KEY3", "KEY5", "ERR1", "ERR3"},
+			Explanation: "Decides structural clauses of C17: a range scan or full iteration is bounded by a prefix that covers exactly the index's own entries, add and remove use one layout (KEY1-KEY3); specialised on reverse = true, every seek target carries the 0xFF upper sentinel, without which an inclusive upper bound loses its entries in descending scans (KEY5); seek and item errors are propagated (ERR1); the scan stops when the consumer asks and the stop does not escape (ERR3).",
 			NotDecided:  "Bound arithmetic: inclusive/exclusive ends, emptiness and intersection of ranges over values, order of the yielded ids.",
 			Assumptions: commonAssumptions,
 		},
